@@ -185,6 +185,24 @@ def scenario_list(m, cfg):
     elif n > 0:
         ri = m.call('LTerm::<U, E>::improper_from_vec', [Adt('Vec', 0, list(elems) + [tail])])
         chk.append(('improper_from_vec', same(ri, l)))
+    # extending a clone must leave the original alone (cells of the spine may be shared)
+    if tail_kind == 0:
+        before = sp.view(l)
+        cl = m.call('<LTerm<U, E> as Clone>::clone', [H.ref(l)])
+        ccell = Cell(cl)
+        m.call('<LTerm<U, E> as Extend<LTerm<U, E>>>::extend::<Vec<LTerm<U, E>>>', [Ref(ccell), Adt('Vec', 0, [H.t_num(m, 77)])])
+        chk.append(('extend_of_a_clone_changes_the_original', oracle_eq(sp, sp.view(l), before)))
+        chk.append(('extend_appends', z3.BoolVal(len(elems_of(sp.view(ccell.v))[0]) == n + 1)))
+    # iter_mut / IndexMut see the same element sequence (on a private copy: they may un-share cells)
+    mcell = Cell(m.call('<LTerm<U, E> as Clone>::clone', [H.ref(l)]))
+    itm = m.call('LTerm::<U, E>::iter_mut', [Ref(mcell)])
+    gotm = drain_all(m, itm)
+    chk.append(('iter_mut yields %d elements, expected %d' % (len(gotm), len(expected)), z3.BoolVal(len(gotm) == len(expected))))
+    for i, (g, e) in enumerate(zip(gotm, expected)):
+        chk.append(('iter_mut element %d' % i, same(g, e)))
+    for i in range(len(expected)):
+        mc2 = Cell(m.call('<LTerm<U, E> as Clone>::clone', [H.ref(l)]))
+        chk.append(('index_mut %d' % i, same(m.call('<LTerm<U, E> as IndexMut<usize>>::index_mut', [Ref(mc2), i]), expected[i])))
     return info
 
 
@@ -322,6 +340,10 @@ def list_test(l, names):
     assert_eq!(it.len(), xs.len(), "iter() length on {}", l);
     for (a, b) in it.iter().zip(xs.iter()) { assert!(a == b, "iter() element on {}", l); }
     assert_eq!(l.iter().count(), xs.len());
+    { let mut c = l.clone(); let n = c.iter_mut().count(); assert_eq!(n, xs.len(), "iter_mut() length on {}", l); }
+    { let mut c = l.clone(); for (a, b) in c.iter_mut().zip(xs.iter()) { assert!(&*a == b, "iter_mut() element on {}", l); } }
+    for (i, x) in xs.iter().enumerate() { let mut c = l.clone(); assert!(&c[i] == x); let r: &mut T = &mut c[i]; assert!(&*r == x, "index_mut {} on {}", i, l); }
+    if l.is_list() && !l.is_improper() { let mut c = l.clone(); c.extend(vec![LTerm::from(77)]); assert!(elems(&l) == xs, "extend of a clone changed the original {}", l); assert_eq!(elems(&c).len(), xs.len() + 1); }
     for (i, x) in xs.iter().enumerate() { assert!(&l[i] == x, "index {} on {}", i, l); assert!(l.contains(x), "contains on {}", l); }
     if !l.is_improper() && l.is_list() {
         let rebuilt: T = LTerm::from_vec(xs.clone());
